@@ -16,13 +16,20 @@ pub fn case(idx: u64, seed: u64, p: &Params, o: &mut CaseOut) {
         return;
     }
     let n = m.n();
-    let d = if r.chance(0.5) { build_w_isize(&m) } else { build_w_isize_alt(&m) };
+    let k = isize_scale(&mut r, &m);
+    let d = if k > 1 {
+        build_w_isize_scaled(&m, k)
+    } else if r.chance(0.5) {
+        build_w_isize(&m)
+    } else {
+        build_w_isize_alt(&m)
+    };
     let mut fw = FloydWarshall::new(&d);
     let dist = fw.distances();
     o.eq("matrix-order", &dist.order, &n);
     let mut rows: Vec<Vec<isize>> = Vec::new();
     for u in 0..n {
-        let want = c07::ref_row(&m, u).expect("harness: negative circuit");
+        let want: Vec<isize> = c07::ref_row(&m, u).expect("harness: negative circuit").into_iter().map(|x| if x == isize::MAX { x } else { x * k }).collect();
         let got: Vec<isize> = (0..n).map(|v| dist[(u, v)]).collect();
         o.check(got == want, "row", || format!("row {u}: got {got:?} want {want:?}"));
         o.check(got[u] == 0, "diagonal", || format!("dist[({u},{u})] = {}", got[u]));
@@ -48,10 +55,13 @@ pub fn case(idx: u64, seed: u64, p: &Params, o: &mut CaseOut) {
     o.bump(wf);
     o.bump(fam);
     o.bumpn("order", n);
+    if k > 1 {
+        o.bump("weights_scaled_up");
+    }
     if has_neg {
         o.bump("has_negative_distance");
     }
     if o.want_desc {
-        o.desc = format!("AdjacencyListWeighted<isize> weights={wf} family={fam} {}", m.describe());
+        o.desc = format!("AdjacencyListWeighted<isize> weights={wf} family={fam} {} (every weight multiplied by {k})", m.describe());
     }
 }
